@@ -146,6 +146,9 @@ pub struct Attr {
     pub name: Name,
     pub ty: TypeRef,
     pub use_: AttrUse,
+    /// written as `<xs:attribute ref="xml:lang"/>`: a member in no namespace (name is `lang`)
+    #[serde(default)]
+    pub xml_lang: bool,
 }
 
 #[derive(Clone, Debug, PartialEq, Eq, Serialize, Deserialize, Default)]
@@ -372,6 +375,10 @@ impl R<'_> {
                 AttrUse::Optional => " use=\"optional\"",
                 AttrUse::Required => " use=\"required\"",
             };
+            if a.xml_lang {
+                self.line(ind, &format!("<{xs}:attribute ref=\"xml:lang\"{u}/>"));
+                continue;
+            }
             self.line(ind, &format!("<{xs}:attribute name=\"{}\" type=\"{}\"{u}/>", esc_attr(&a.name.xml()), esc_attr(&t)));
         }
     }
